@@ -520,6 +520,13 @@ def run_concur_job(job, scens, run_case, prop, files, alphabet=None):
     for bound, hits, cap, *vis in passes:
         ex = concur.explore_cases(acc, run_case, prop, scen, files, bound, max_hits=hits, max_exec=cap, visible=bool(vis and vis[0]))
         n_exec += ex.executions
+    if scen.get("warm"):
+        # the same threads from a COLD process image too (first visits of a line only): a check-then-act initialisation race exists
+        # only before the first completed call, which a warm-up scenario never sees
+        cold = dict(scen, warm=[])
+        ex = concur.explore_cases(acc, run_case, prop, cold, files, 1, max_hits=1, max_exec=5_000)
+        n_exec += ex.executions
+        acc.extra["cold_pass"] = True
 
     class ex:       # noqa
         executions = n_exec
